@@ -3,7 +3,7 @@ waits for the ECU after a reset, and reports exactly what the ECU answered.
 
 spec   : spec/ResetScanContract.tla (clauses T0, R0..R4, R6), spec/ResetScan.tla (design: main / perform_scan /
          check_and_set_session / wait_for_ecu / leave_session, abstract ECU with silence, connection drop, refusal,
-         session fall-back), MC_ResetScan_{a,b,c,cov}(+full,c4 thorough); negative controls MC_ResetScan_dev*
+         session fall-back), MC_ResetScan_{a,b,c,cov}(+full1,full2,c4 thorough); negative controls MC_ResetScan_dev*
          (devS1 = suspected defect S1: a refused reconnect inside wait_for_ecu ends the scan)
 binding: the REAL ResetScanner, run through AsyncScript.run() with a real ECU client over the full tcp-lines stack
          in memory (harness/x06_run.py on top of harness/c10_stack.py + harness/streams.py), virtual time;
@@ -27,7 +27,7 @@ from harness.common import Machinery, Report
 from harness.x06_run import NONE, POS, run_case
 
 MC_QUICK = ["a", "b", "c"]
-MC_THOROUGH = ["full", "c4"]
+MC_THOROUGH = ["full1", "full2", "c4"]
 MC_COV = "cov"
 NEG_CONTROLS = {
     "devS1": {"R0_Envelope"}, "devNoWait": {"R6_Wait"}, "devNoReenter": {"R2_InSess"}, "devSkip": {"R4_Skip"},
@@ -79,16 +79,19 @@ def _validate(traces: list[dict[str, Any]], rep: Report | None) -> tuple[dict[in
 
 
 def _mc_start(tier: str) -> tuple[Any, list[Any], list[Any]]:
-    jobs: list[tuple[str, set[str] | None, bool]] = [(c, None, False) for c in MC_QUICK]
+    jobs: list[tuple[str, set[str] | None, bool]] = []
     if tier == "thorough":
-        jobs += [(c, None, False) for c in MC_THOROUGH]
+        jobs += [(c, None, False) for c in MC_THOROUGH]  # the long ones first
+    jobs += [(c, None, False) for c in MC_QUICK]
     jobs.append((MC_COV, None, True))
     jobs += [(c, want, False) for c, want in NEG_CONTROLS.items()]
 
     def one(j: tuple[str, set[str] | None, bool]) -> Any:
-        return tlc.run_tlc("MC_ResetScan", f"MC_ResetScan_{j[0]}.cfg", workers=4, timeout=3000, coverage=j[2], heap="3g")
+        # negative controls stop at the first counterexample: one worker keeps their state counts reproducible
+        return tlc.run_tlc("MC_ResetScan", f"MC_ResetScan_{j[0]}.cfg", workers=1 if j[1] else 4, timeout=3000,
+                           coverage=j[2], heap="3g")
 
-    ex = ThreadPoolExecutor(max_workers=4)
+    ex = ThreadPoolExecutor(max_workers=5 if tier == "thorough" else 4)
     return ex, jobs, [ex.submit(one, j) for j in jobs]
 
 
@@ -361,6 +364,10 @@ def _selftest(rep: Report, traces: list[dict[str, Any]], cases: list[dict[str, A
                  and any(e["k"] == "ok" and [x for x in e["l"] if x != 1] for e in t["ev"])
                  and any(e["k"] == "err" and e["l"] for e in t["ev"])
                  and any(is_reset(e) and e["r"] == POS and 0 < e["d"] < 8000 for e in t["ev"])), None)
+    if base is None and rep.violations:
+        # the tree under test breaks the property so broadly that no execution qualifies: the violations are the result
+        rep.extra["binding_selftest"] = "skipped: no accepted non-trivial execution on this tree (violations reported)"
+        return
     if base is None:
         raise Machinery("no accepted non-trivial trace (session list, ok and error entries, a silent reboot) to run "
                         "the binding self-test on")
